@@ -133,6 +133,10 @@ type Term struct {
 func (t *Term) IsConst() bool { return t.Op == OConst }
 
 type Ctx struct {
+	// FloatUF: floating-point values are represented by their bit patterns and
+	// every arithmetic operation is an uninterpreted function (used where only
+	// data flow matters, e.g. lane independence); sign/abs/class tests stay exact.
+	FloatUF bool
 	tab   map[string]*Term
 	Terms []*Term
 	True  *Term
@@ -274,9 +278,15 @@ func (c *Ctx) BVC(v uint64, w int) *Term {
 }
 
 func (c *Ctx) F32C(f float32) *Term {
+	if c.FloatUF {
+		return c.BVC(uint64(math.Float32bits(f)), 32)
+	}
 	return c.mk(&Term{Op: OConst, S: FP32, C: uint64(math.Float32bits(f))})
 }
 func (c *Ctx) F64C(f float64) *Term {
+	if c.FloatUF {
+		return c.BVC(math.Float64bits(f), 64)
+	}
 	return c.mk(&Term{Op: OConst, S: FP64, C: math.Float64bits(f)})
 }
 
@@ -812,27 +822,59 @@ func (c *Ctx) Store(arr, idx, v *Term) *Term {
 
 func fpOf(s Sort) bool { return s.K == KFP32 || s.K == KFP64 }
 
+func (c *Ctx) fpOK(s Sort) bool {
+	if c.FloatUF {
+		return s.K == KBV && (s.W == 32 || s.W == 64)
+	}
+	return fpOf(s)
+}
+
+// FSort is the sort of a float of the given width in the current mode.
+func (c *Ctx) FSort(w int) Sort {
+	if c.FloatUF {
+		return BV(w)
+	}
+	if w == 32 {
+		return FP32
+	}
+	return FP64
+}
+
+func is32(s Sort) bool { return s.K == KFP32 || (s.K == KBV && s.W == 32) }
+
+var fpOpNames = map[Op]string{OFpAdd: "add", OFpSub: "sub", OFpMul: "mul", OFpDiv: "div", OFpEq: "eq", OFpLt: "lt", OFpLe: "le",
+	OFpSqrt: "sqrt", OFpFma: "fma", OFpRti: "rti", OFpToFp: "cvt", OFpFromSBV: "fromsbv", OFpFromUBV: "fromubv", OFpToSBV: "tosbv", OFpToUBV: "toubv"}
+
+func (c *Ctx) fuf(op Op, res Sort, extra int, args ...*Term) *Term {
+	name := "fp_" + fpOpNames[op]
+	for _, a := range args {
+		name += "_" + itoa(a.S.W)
+	}
+	name += "_r" + itoa(res.W) + "_" + itoa(extra)
+	return c.UF(name, res, args...)
+}
+
 func (c *Ctx) fconst(s Sort, f float64) *Term {
-	if s.K == KFP32 {
+	if is32(s) {
 		return c.F32C(float32(f))
 	}
 	return c.F64C(f)
 }
 
 func (t *Term) FloatVal() float64 {
-	if t.S.K == KFP32 {
+	if is32(t.S) {
 		return float64(math.Float32frombits(uint32(t.C)))
 	}
 	return math.Float64frombits(t.C)
 }
 
 func (c *Ctx) FpBin(op Op, a, b *Term) *Term {
-	if a.S != b.S || !fpOf(a.S) {
+	if a.S != b.S || !c.fpOK(a.S) {
 		panic("smt.FpBin sort mismatch")
 	}
 	if a.IsConst() && b.IsConst() {
 		x, y := a.FloatVal(), b.FloatVal()
-		if a.S.K == KFP32 {
+		if is32(a.S) {
 			x32, y32 := float32(x), float32(y)
 			switch op {
 			case OFpAdd:
@@ -857,11 +899,14 @@ func (c *Ctx) FpBin(op Op, a, b *Term) *Term {
 			}
 		}
 	}
+	if c.FloatUF {
+		return c.fuf(op, a.S, 0, a, b)
+	}
 	return c.mk(&Term{Op: op, S: a.S, Args: []*Term{a, b}})
 }
 
 func (c *Ctx) FpCmp(op Op, a, b *Term) *Term {
-	if a.S != b.S || !fpOf(a.S) {
+	if a.S != b.S || !c.fpOK(a.S) {
 		panic("smt.FpCmp sort mismatch")
 	}
 	if a.IsConst() && b.IsConst() {
@@ -875,28 +920,47 @@ func (c *Ctx) FpCmp(op Op, a, b *Term) *Term {
 			return c.BoolC(x <= y)
 		}
 	}
+	if c.FloatUF {
+		return c.fuf(op, Bool, 0, a, b)
+	}
 	return c.mk(&Term{Op: op, S: Bool, Args: []*Term{a, b}})
 }
 
 func (c *Ctx) FpUn(op Op, a *Term) *Term {
-	if !fpOf(a.S) {
+	if !c.fpOK(a.S) {
 		panic("smt.FpUn sort")
+	}
+	if c.FloatUF {
+		w := a.S.W
+		switch op {
+		case OFpNeg:
+			return c.BvXor(a, c.BVC(uint64(1)<<uint(w-1), w))
+		case OFpAbs:
+			return c.BvAnd(a, c.BVC(mask(w-1), w))
+		}
+		if a.IsConst() && op == OFpSqrt {
+			if w == 32 {
+				return c.F32C(float32(math.Sqrt(a.FloatVal())))
+			}
+			return c.F64C(math.Sqrt(a.FloatVal()))
+		}
+		return c.fuf(op, a.S, 0, a)
 	}
 	if a.IsConst() {
 		x := a.FloatVal()
 		switch op {
 		case OFpNeg:
-			if a.S.K == KFP32 {
+			if is32(a.S) {
 				return c.mk(&Term{Op: OConst, S: FP32, C: a.C ^ 0x80000000})
 			}
 			return c.mk(&Term{Op: OConst, S: FP64, C: a.C ^ (1 << 63)})
 		case OFpAbs:
-			if a.S.K == KFP32 {
+			if is32(a.S) {
 				return c.mk(&Term{Op: OConst, S: FP32, C: a.C &^ 0x80000000})
 			}
 			return c.mk(&Term{Op: OConst, S: FP64, C: a.C &^ (1 << 63)})
 		case OFpSqrt:
-			if a.S.K == KFP32 {
+			if is32(a.S) {
 				return c.F32C(float32(math.Sqrt(x)))
 			}
 			return c.F64C(math.Sqrt(x))
@@ -906,6 +970,29 @@ func (c *Ctx) FpUn(op Op, a *Term) *Term {
 }
 
 func (c *Ctx) FpPred(op Op, a *Term) *Term {
+	if c.FloatUF && !a.IsConst() {
+		// exact classification on the bit pattern
+		w := a.S.W
+		ew, mw := 8, 23
+		if w == 64 {
+			ew, mw = 11, 52
+		}
+		exp := c.Extract(a, w-2, mw)
+		man := c.Extract(a, mw-1, 0)
+		expOnes := c.Eq(exp, c.BVC(mask(ew), ew))
+		manZero := c.Eq(man, c.BVC(0, mw))
+		sign := c.Eq(c.Extract(a, w-1, w-1), c.BVC(1, 1))
+		switch op {
+		case OFpIsNaN:
+			return c.And(expOnes, c.Not(manZero))
+		case OFpIsInf:
+			return c.And(expOnes, manZero)
+		case OFpIsNeg:
+			return c.And(sign, c.Not(c.And(expOnes, c.Not(manZero))))
+		case OFpIsZero:
+			return c.And(c.Eq(exp, c.BVC(0, ew)), manZero)
+		}
+	}
 	if a.IsConst() {
 		x := a.FloatVal()
 		switch op {
@@ -945,10 +1032,16 @@ func (c *Ctx) FpRti(a *Term, mode int) *Term {
 			return c.fconst(a.S, r)
 		}
 	}
+	if c.FloatUF {
+		return c.fuf(OFpRti, a.S, mode, a)
+	}
 	return c.mk(&Term{Op: OFpRti, S: a.S, Args: []*Term{a}, P1: mode})
 }
 
 func (c *Ctx) FpFma(a, b, d *Term) *Term {
+	if c.FloatUF {
+		return c.fuf(OFpFma, a.S, 0, a, b, d)
+	}
 	return c.mk(&Term{Op: OFpFma, S: a.S, Args: []*Term{a, b, d}})
 }
 
@@ -959,10 +1052,16 @@ func (c *Ctx) FpToFp(a *Term, s Sort) *Term {
 	if a.IsConst() {
 		return c.fconst(s, a.FloatVal())
 	}
+	if c.FloatUF {
+		return c.fuf(OFpToFp, s, 0, a)
+	}
 	return c.mk(&Term{Op: OFpToFp, S: s, Args: []*Term{a}})
 }
 
 func (c *Ctx) FpFromBits(a *Term) *Term {
+	if c.FloatUF {
+		return a
+	}
 	var s Sort
 	switch a.S.W {
 	case 32:
@@ -985,6 +1084,9 @@ func (c *Ctx) FpFromBits(a *Term) *Term {
 // encodings); terms built from FpFromBits fold back exactly, anything else gets
 // a fresh bit-vector b with the side constraint to_fp(b) = a (see Solver).
 func (c *Ctx) FpToBits(a *Term) *Term {
+	if c.FloatUF {
+		return a
+	}
 	w := 32
 	if a.S.K == KFP64 {
 		w = 64
@@ -1003,10 +1105,16 @@ func (c *Ctx) FpFromInt(a *Term, signed bool, s Sort) *Term {
 		if signed {
 			return c.fconst(s, float64(sext64(a.C, a.S.W)))
 		}
-		if s.K == KFP32 {
+		if is32(s) {
 			return c.F32C(float32(a.C))
 		}
 		return c.F64C(float64(a.C))
+	}
+	if c.FloatUF {
+		if signed {
+			return c.fuf(OFpFromSBV, s, 0, a)
+		}
+		return c.fuf(OFpFromUBV, s, 0, a)
 	}
 	op := OFpFromUBV
 	if signed {
@@ -1016,6 +1124,12 @@ func (c *Ctx) FpFromInt(a *Term, signed bool, s Sort) *Term {
 }
 
 func (c *Ctx) FpToInt(a *Term, signed bool, w int) *Term {
+	if c.FloatUF {
+		if signed {
+			return c.fuf(OFpToSBV, BV(w), 0, a)
+		}
+		return c.fuf(OFpToUBV, BV(w), 0, a)
+	}
 	op := OFpToUBV
 	if signed {
 		op = OFpToSBV
